@@ -12,6 +12,7 @@ import DateutilVerif.Ops.NestedOps
 import DateutilVerif.Ops.Parser
 import DateutilVerif.Ops.QueryOps
 import DateutilVerif.Ops.RRule
+import DateutilVerif.Ops.RRuleGen
 import DateutilVerif.Ops.RRuleStr
 import DateutilVerif.Ops.RSetOps
 import DateutilVerif.Ops.RelativeDelta
@@ -22,7 +23,7 @@ import DateutilVerif.Ops.TzStr
 import DateutilVerif.Ops.Zones
 
 def handlers : List (String → List String → Option String) :=
-  [Ops.Base.handle, Ops.CacheOps.handle, Ops.Factory.handle, Ops.ICal.handle, Ops.IsoParser.handle, Ops.NestedOps.handle, Ops.Parser.handle, Ops.QueryOps.handle, Ops.RRule.handle, Ops.RRuleStr.handle, Ops.RSetOps.handle, Ops.RelativeDelta.handle, Ops.ReplaceOps.handle, Ops.TzGen.handle, Ops.TzObjGen.handle, Ops.TzStr.handle, Ops.Zones.handle]
+  [Ops.Base.handle, Ops.CacheOps.handle, Ops.Factory.handle, Ops.ICal.handle, Ops.IsoParser.handle, Ops.NestedOps.handle, Ops.Parser.handle, Ops.QueryOps.handle, Ops.RRule.handle, Ops.RRuleGen.handle, Ops.RRuleStr.handle, Ops.RSetOps.handle, Ops.RelativeDelta.handle, Ops.ReplaceOps.handle, Ops.TzGen.handle, Ops.TzObjGen.handle, Ops.TzStr.handle, Ops.Zones.handle]
 
 def dispatch (line : String) : String :=
   match (line.trimAscii.toString.splitOn " ").filter (· ≠ "") with
